@@ -130,6 +130,16 @@ add('C07', "PegSem with the model-building action (Cfg.act = model): a rule anno
     "Trusted: TLC, projections (harness/objreplay.py). Attribute names that collide with Node methods are compared for values only (children() omits them).",
     "TLA+ spec PegSem (MkNode / ObjModel) evaluated by TLC + replay through four model-building routes", "5 C07, 3.7")
 
+add('C13', "Grammar models obtained from the abstract-grammar universes (PegSem evaluated by TLC is the oracle of the ORIGINAL grammar for them), from a "
+    "corpus of full-language grammar texts (meta expressions, $->, alerts, constants, patterns with slashes/quotes/backslashes, tokens with quotes and "
+    "backslashes, decorators incl. aliases, parameters, typed and based rules, includes, @override, directives, keywords, joins), from JSON, and with "
+    "token/pattern texts enumerated over {a, ', \", \\, /} up to length 3; each model is pretty-printed and recompiled: the text must compile, the "
+    "recompiled model must equal the original (from_model projection), behave identically on the input battery and agree with the specification "
+    "outcome of the original grammar; pretty-print fixpoint and railroads() completion are checked directly.",
+    "Trusted: TLC, projections (harness/derived.py from_model modulo Option/one-element wrappers, @override resolution, the isname alias). The fixpoint "
+    "and railroad side conditions are implementation-level equalities with no specification oracle (DESIGN 8).",
+    "TLA+ spec PegSem as oracle of the original grammar + derivation replay (pretty -> recompile -> compare)", "5 C13")
+
 import sys
 checks = [C[p] for p in props if p in C]
 na = [{"property_id": p, "reason": "check not built yet in this round (build in progress; DESIGN.md section 10 gives the order)"} for p in props if p not in C]
